@@ -97,3 +97,41 @@ def run(cases):
     for i in ids:
         out.append({"impl": lib.get(i, "noanswer"), "model": mod.get(i, "skipped"), "front": front[i], "mid": mid[i]})
     return out
+
+
+def run_full(cases):
+    """end-to-end correspondence: the whole model (front end, middle, back end) against the library.
+    cases as in run(); returns list of dicts {impl, model}"""
+    n = len(cases)
+    ids = [str(i) for i in range(n)]
+    toks = sorted(set(c[1].impl_token() for c in cases))
+    css0 = common.run_impl("css0", ["%d %s" % (i, t) for i, t in enumerate(toks)], nproc=1)
+    css0_of = {t: css0[str(i)] for i, t in enumerate(toks)}
+    envs = common.env_tables([c[0] for c in cases])
+    lib_lines = []
+    model_lines = []
+    for i, (inp, st, entry), env in zip(ids, cases, envs):
+        if isinstance(entry, tuple):
+            e = "override:%s:%s" % (f32bits(entry[1]), f32bits(entry[2]))
+            mt = st.model_token((entry[1], entry[2]))
+            pr = "pretty"
+        else:
+            e = entry
+            mt = st.model_token()
+            pr = entry_pretty(entry)
+        lib_lines.append("%s %s %s %s" % (i, e, st.impl_token(), hx(inp)))
+        model_lines.append("%s %s %s %s %s %s" % (i, pr, mt, css0_of[st.impl_token()], hx(inp), env))
+    lib = common.run_impl("lib", lib_lines)
+    mod = common.run_model("full", model_lines, timeout=1800)
+    return [{"impl": lib.get(i, "noanswer"), "model": mod.get(i, "noanswer")} for i in ids]
+
+
+def first_difference(a, b, width=90):
+    """human-readable first difference of two `ok <hex>` answers"""
+    if a.startswith("ok ") and b.startswith("ok "):
+        x, y = unhx(a[3:]), unhx(b[3:])
+        for i, (p, q) in enumerate(zip(x, y)):
+            if p != q:
+                return {"at": i, "impl": x[max(0, i - width):i + width], "model": y[max(0, i - width):i + width]}
+        return {"at": min(len(x), len(y)), "impl_len": len(x), "model_len": len(y)}
+    return {"impl": a[:200], "model": b[:200]}
